@@ -84,7 +84,12 @@ def run(chk):
               'elementpath/xpath2/_xpath2_constructors.py', 'elementpath/xpath2/_xpath2_operators.py', 'elementpath/xpath_tokens/base.py', 'elementpath/helpers.py'):
         chk.record_source(f)
     chk.forbidden_scan(['C10'])
-    proved = chk.prove(['theories/C10/Model.v', 'theories/C10/Proofs.v', 'theories/C10/Run.v'], 'theories/C10/Properties.v')
+    import sys as _sys
+    _sys.path.insert(0, core.VERIF + '/harness')
+    import gen_c10
+    gen_c10.generate()          # T-data / source-shape facts regenerated from /repo on every run
+    chk.trusted.append('harness/shape.py: AST lookup of the statements mirrored by the hand model (Gen/C10Shape.v)')
+    proved = chk.prove(['theories/Gen/C10Shape.v', 'theories/C10/Model.v', 'theories/C10/Proofs.v', 'theories/C10/Run.v'], 'theories/C10/Properties.v')
     model_ok = True
     if not proved:
         try:
@@ -155,9 +160,13 @@ def run(chk):
         chk.count('int:' + name)
         if mo is None:
             continue
-        ok, z, lex = mo
+        (mok, mz), (ok, z), lex = (mo[0], mo[1]), tuple(mo[2]), mo[3]      # Coq prints ((a, b), (c, d), e) as (a, b, (c, d), e)
         desc = {'type': 'xs:' + name, 'string': ascii(s)}
-        agree(desc, paths(name, s, cls), bool(ok), str(z) if ok else None)
+        out = paths(name, s, cls)
+        agree(desc, out, bool(ok), str(z) if ok else None)
+        got_ok = out.get('class', ('err',))[0] == 'val'
+        if got_ok != bool(mok):
+            chk.corr_fail.append((desc, out.get('class'), (mok, mz)))
         iv = cls.is_valid(collapse(s))
         if iv != bool(lex):
             chk.violation('impl-vs-spec', desc, {'is_valid (collapsed)': iv, 'lexical space': bool(lex)})
@@ -332,8 +341,8 @@ def run(chk):
                 'boolean, double, float, hexBinary, base64Binary; canonical strings of integers, decimals and doubles; hexBinary <-> base64Binary '
                 'on random octets; integer <-> decimal <-> string; fixed candidate strings for 23 other types (agreement of the paths); '
                 'non-trivial = distinct (type, string)')
-    chk.obligations.append({'name': 'correspondence:impl==model(lexical spaces, bounds, codecs)', 'ok': not any(v['kind'] == 'impl-vs-spec' for v in chk.violations),
-                            'detail': 'see violations'})
+    chk.obligations.append({'name': 'correspondence:impl==model(lexical spaces, bounds, codecs)', 'ok': not chk.corr_fail and not any(v['kind'] == 'impl-vs-spec' for v in chk.violations),
+                            'detail': (repr(chk.corr_fail[0])[:400] if chk.corr_fail else 'see violations')})
 
 
 def replay(rec):
